@@ -285,29 +285,51 @@ func cmdBaseline(args []string) {
 	timeout := fs.Int("timeout", 20, "per-obligation timeout (s)")
 	maxTime := fs.Float64("claim-under", 8.0, "only clauses whose slowest obligation discharges under this many seconds are claimed")
 	fs.Parse(args)
-	res, err := runAll(*repo, *verif, *timeout, func(o *Obligation) bool { return true }, "")
-	if err != nil {
-		fmt.Println("ERROR", err)
-		os.Exit(2)
-	}
-	b := &Baseline{Entries: map[string]*BaselineEntry{}}
-	for _, fc := range res.fcs {
-		for _, o := range fc.obls {
-			if o.Kind == "canary" {
+	// A clause is claimed only if every one of its obligations discharged, under the time limit, in BOTH of two complete runs
+	// (a clause that discharges in one run and times out in the next would raise a false alarm on the unchanged tree), and if
+	// it is not listed in baseline/never_claim.txt (clauses known to be unstable, with the reason).
+	never := map[string]bool{}
+	if data, err := os.ReadFile(filepath.Join(*verif, "baseline", "never_claim.txt")); err == nil {
+		for _, l := range strings.Split(string(data), "\n") {
+			l = strings.TrimSpace(l)
+			if l == "" || strings.HasPrefix(l, "#") {
 				continue
 			}
-			k := clauseKey(o)
-			e := b.Entries[k]
-			if e == nil {
-				e = &BaselineEntry{Key: k, Func: o.Func, Kind: o.Kind, Tags: o.Tags, Text: o.Text, Discharged: true}
-				b.Entries[k] = e
-			}
-			e.N++
-			if o.Status != "unsat" || o.TimeS > *maxTime {
-				e.Discharged = false
-			}
-			if o.TimeS > e.MaxTimeS {
-				e.MaxTimeS = o.TimeS
+			never[strings.Fields(l)[0]] = true
+		}
+	}
+	b := &Baseline{Entries: map[string]*BaselineEntry{}}
+	var res *runResult
+	for round := 0; round < 2; round++ {
+		var err error
+		res, err = runAll(*repo, *verif, *timeout, func(o *Obligation) bool { return true }, "")
+		if err != nil {
+			fmt.Println("ERROR", err)
+			os.Exit(2)
+		}
+		seen := map[string]bool{}
+		for _, fc := range res.fcs {
+			for _, o := range fc.obls {
+				if o.Kind == "canary" {
+					continue
+				}
+				k := clauseKey(o)
+				e := b.Entries[k]
+				if e == nil {
+					e = &BaselineEntry{Key: k, Func: o.Func, Kind: o.Kind, Tags: o.Tags, Text: o.Text, Discharged: round == 0 && !never[k]}
+					b.Entries[k] = e
+				}
+				if !seen[k] {
+					seen[k] = true
+					e.N = 0
+				}
+				e.N++
+				if o.Status != "unsat" || o.TimeS > *maxTime {
+					e.Discharged = false
+				}
+				if o.TimeS > e.MaxTimeS {
+					e.MaxTimeS = o.TimeS
+				}
 			}
 		}
 	}
